@@ -125,6 +125,7 @@ func main() {
 	genRun()
 	genTTL()
 	genResolv()
+	genClientInfo()
 	if forProp == "" || forProp == "C15" {
 		genLockset()
 	}
